@@ -1,5 +1,6 @@
 #!/bin/bash
-# matrix.sh <outdir> [seed ...] : for each seeded change, copy /repo to a scratch dir, apply the patch, run ALL checks
+# matrix.sh <outdir> [seed ...] : for each seeded change, copy /repo to a scratch dir, apply the patch, run every check that
+# reads a changed function (tools/matrix_plan.py; the others are '-': outcome unchanged by construction)
 # against the copy (VERIF_REPO), record exit codes.  Scratch copies are removed afterwards.
 out=$1; shift
 mkdir -p $out
@@ -11,7 +12,10 @@ one() {
   git -C /repo archive HEAD | tar -x -C $d
   (cd $d && git init -q . && git apply /verif/seeded/$seed/patch.diff) || { echo "$seed APPLY-FAILED" >> $out/matrix.txt; rm -rf $d; return; }
   line="$seed"
+  plan=" $(python3 /verif/tools/matrix_plan.py $seed | cut -d: -f2) "
   for p in $ids; do
+    # a check that reads none of the changed functions (nor module-level code of their files) cannot change its outcome
+    case "$plan" in *" $p "*) ;; *) line="$line $p=-"; continue;; esac
     o=$(cd ${VERIF_HOME:-/verif} && VERIF_REPO=$d VERIF_OUT_DIR=$d/_out timeout 1500 ./check $p 2>&1 | grep -v '^WARNING'); rc=$?
     rc=$(echo "$o" | grep -q '^VIOLATION' && echo 1 || (echo "$o" | grep -q 'CHECKER-ERROR\|VACUITY' && echo 3 || (echo "$o" | grep -q UNDECIDED && echo 2 || echo 0)))
     nf=$(echo "$o" | grep '^VIOLATION' | grep -c 'no-failing-input-found')
